@@ -52,7 +52,7 @@ func c08R2(c *Ctx, r *c08Roles) {
 	c.Expect(R2, 12)
 	c08ComputeDirty(c.P, r)
 	nMut := 0
-	for _, f := range c.P.FuncsOfPkg(c08Pkg) {
+	for _, f := range c09FuncsOfPkg(c.P, c08Pkg) {
 		fname := FnName(f)
 		muts := c08Mutations(f, r)
 		if len(muts) > 0 && r.dirty[f] {
@@ -722,7 +722,7 @@ func c08R3(c *Ctx, r *c08Roles) {
 		l  *Loop
 	}
 	var loaders []loader
-	for _, f := range c.P.FuncsOfPkg(c08Pkg) {
+	for _, f := range c09FuncsOfPkg(c.P, c08Pkg) {
 		if r.savers[f] {
 			continue
 		}
@@ -997,7 +997,7 @@ func c08R3(c *Ctx, r *c08Roles) {
 		return false
 	}
 	nDec := 0
-	for _, f := range c.P.FuncsOfPkg(c08Pkg) {
+	for _, f := range c09FuncsOfPkg(c.P, c08Pkg) {
 		if isShared(f) {
 			continue
 		}
@@ -1215,7 +1215,7 @@ func c08R5(c *Ctx) {
 		return out
 	}
 	n := 0
-	for _, f := range c.P.FuncsOfPkg("internal/fs/tarfs") {
+	for _, f := range c09FuncsOfPkg(c.P, "internal/fs/tarfs") {
 		AllInstrs(f, func(in ssa.Instruction) {
 			u, ok := in.(*ssa.UnOp)
 			if !ok || u.Op != token.MUL {
